@@ -50,6 +50,23 @@ def run_density(setup, nprocs, G, perturbed, cplx, policy_seed, warm=None):
 
     def body():
         comm = MPI.COMM_WORLD
+        import copy
+        df0 = None
+        if warm is not None and policy_seed % 2 == 0:
+            # the finder outlives the grid it served first: that grid and its layout manager are DROPPED before the next ones are built
+            # (the scan of a parameter re-uses one finder), so new objects may take the very place of the old ones in memory
+            import gc
+            consts0 = copy.copy(setup['constants'])
+            df0 = DensityFinder(setup['quad_degree'], bs[3], eta, consts0)
+            for _ in range(3):
+                hw = getLayoutHandler(comm, {'v_parallel': [0, 2, 1, 3]}, list(warm), eta)
+                gw = Grid(eta, bs, hw, 'v_parallel', comm)
+                gw._f[:] = 1.0 + 0.25 * np.arange(gw._f.size).reshape(gw._f.shape)
+                hrw = getLayoutHandler(comm, {'v_parallel_2d': [0, 2, 1]}, list(warm), eta[:3])
+                rw = Grid(eta[:3], bs[:3], hrw, 'v_parallel_2d', comm, dtype=np.complex128 if cplx else float)
+                (df0.getPerturbedRho if perturbed else df0.getRho)(gw, rw)
+                del hw, gw, hrw, rw
+                gc.collect()
         h = getLayoutHandler(comm, {'v_parallel': [0, 2, 1, 3]}, list(nprocs), eta)
         g = Grid(eta, bs, h, 'v_parallel', comm)
         hr = getLayoutHandler(comm, {'v_parallel_2d': [0, 2, 1]}, list(nprocs), eta[:3])
@@ -61,15 +78,16 @@ def run_density(setup, nprocs, G, perturbed, cplx, policy_seed, warm=None):
         # memory / a diverged earlier step may hold (nan, inf)
         stale = [7.5, np.nan, np.inf, -np.inf][policy_seed % 4]
         rho._f[:] = complex(stale, -3.25 if policy_seed % 8 < 4 else np.nan) if cplx else stale
-        import copy
         consts = copy.copy(setup['constants'])           # this rank's own Constants object (ranks are threads here)
-        df = DensityFinder(setup['quad_degree'], bs[3], eta, consts)
+        df = DensityFinder(setup['quad_degree'], bs[3], eta, consts) if df0 is None else df0
+        if df0 is not None:
+            consts = consts0
         # the finder has been built: its equilibrium table and weights are fixed.  The Constants object it was given is changed
         # afterwards (re-used for another set-up); the oracle uses the values of construction time
         saved_consts = {k: getattr(consts, k) for k in ('CN0', 'kN0', 'deltaRN0', 'CTi', 'kTi', 'deltaRTi', 'rp')}
         consts.kN0, consts.deltaRN0, consts.CTi, consts.kTi = 3.0 * consts.kN0, 0.5 * consts.deltaRN0, 2.0 * consts.CTi, 0.5 * consts.kTi
         consts.CN0 = 0.31
-        if warm is not None:
+        if warm is not None and df0 is None:
             # the same DensityFinder is first used for a grid that is decomposed differently over the same processes (and holds
             # other data): nothing of that call may survive into the next one
             hw = getLayoutHandler(comm, {'v_parallel': [0, 2, 1, 3]}, list(warm), eta)
@@ -363,6 +381,8 @@ def run(chk):
     try:
         for it in range(chk.n(30, 400)):
             one_setup(chk, drv, it, stats)
+        import optflag
+        optflag.compare(chk, 'c16', 'C16')
     finally:
         drv.close()
     chk.notes['max_ratio_model'] = 'max |impl-model|/(eps*sum|terms|) = %.3g (accepted %d)' % (stats['model'], C_MODEL)
